@@ -3,6 +3,7 @@ From Coq Require Import String ZArith List Bool.
 From Coq Require Extraction.
 From Coq Require Import ExtrOcamlBasic ExtrOcamlString.
 From HV Require Import Gen.GenCopies Gen.GenFrontierFlow Spec.IsolationSpec Model.IsolationModel.
+From HV Require Import Gen.GenSolverLife Spec.SolverLifeSpec Model.SolverLifeModel.
 Import ListNotations.
 Open Scope Z_scope.
 
@@ -192,8 +193,83 @@ Definition c20_depths (a : list Z) : list Z :=
   | _ => []
   end.
 
+(* ---- the solver life cycle of run_message (Model/SolverLifeModel.v over the literals v == k / v != k)
+   frontiers: [ndepths; per depth: nstates; per state: nslice; (v k p)*; program]
+   program (preorder): 0 o = Leaf o | 1 v k p <then> <else> = Br (v, k, p <> 0) then else *)
+Fixpoint dec_prog (fuel : nat) (l : list Z) : prog eqlit * list Z :=
+  match fuel with
+  | O => (Leaf (-1), [])
+  | S n =>
+      match l with
+      | 0 :: o :: r => (Leaf o, r)
+      | 1 :: v :: k :: p :: r =>
+          let '(t, r1) := dec_prog n r in
+          let '(f, r2) := dec_prog n r1 in
+          (Br (v, k, negb (p =? 0)) t f, r2)
+      | _ => (Leaf (-1), [])
+      end
+  end.
+
+Fixpoint dec_lits (n : nat) (l : list Z) : list eqlit * list Z :=
+  match n with
+  | O => ([], l)
+  | S m =>
+      match l with
+      | v :: k :: p :: r => let '(ls, r') := dec_lits m r in ((v, k, negb (p =? 0)) :: ls, r')
+      | _ => ([], [])
+      end
+  end.
+
+Fixpoint dec_states (n fuel : nat) (l : list Z) : list (fstate eqlit) * list Z :=
+  match n with
+  | O => ([], l)
+  | S m =>
+      match l with
+      | ns :: r =>
+          let '(sl, r1) := dec_lits (Z.to_nat ns) r in
+          let '(p, r2) := dec_prog fuel r1 in
+          let '(sts, r3) := dec_states m fuel r2 in
+          (mkF sl p :: sts, r3)
+      | [] => ([], [])
+      end
+  end.
+
+Fixpoint dec_frontiers (n fuel : nat) (l : list Z) : list (list (fstate eqlit)) :=
+  match n with
+  | O => []
+  | S m =>
+      match l with
+      | ns :: r => let '(sts, r1) := dec_states (Z.to_nat ns) fuel r in sts :: dec_frontiers m fuel r1
+      | [] => []
+      end
+  end.
+
+Definition enc_outs (x : list (list (list Z))) : list Z :=
+  flat_map (flat_map (fun o => natZ (List.length o) :: o)) x.
+
+(* c20_solverlife: frontiers -> per state (in order): [number of outcomes; outcomes...] as run_message
+   reports them under the REGENERATED life cycle (gen_life) *)
+Definition c20_solverlife (a : list Z) : list Z :=
+  match a with
+  | nd :: r => enc_outs (l_life_run gen_life (dec_frontiers (Z.to_nat nd) (List.length a) r))
+  | [] => []
+  end.
+
+(* c20_solver_leftover: [nslice; (v k p)*; program] -> [number of outcomes; outcomes...; then the literals
+   the solver holds when the run of the test on this state alone returns: (v k p)*, innermost scope first] *)
+Definition c20_solver_leftover (a : list Z) : list Z :=
+  match dec_states 1 (List.length a) a with
+  | ([st], _) =>
+      let '(o, s) := l_explore (f_prog st) (extend eqlit (f_slice st) zfresh) in
+      natZ (List.length o) :: o ++
+      flat_map (fun l => [l_var l; l_val l; if l_pol l then 1 else 0]) (assertions eqlit s)
+  | _ => []
+  end.
+
 Definition table : list (string * (list Z -> list Z)) :=
-  [ ("c20_run"%string, c20_run);
+  [ ("c20_solverlife"%string, c20_solverlife);
+    ("c20_solver_leftover"%string, c20_solver_leftover);
+    ("c20_run"%string, c20_run);
     ("c20_spec"%string, c20_spec);
     ("c20_run_cfg"%string, c20_run_cfg);
     ("c20_run_ann"%string, c20_run_ann);
